@@ -4,6 +4,7 @@ import (
 	"fmt"
 	"go/ast"
 	"go/constant"
+	"go/token"
 	"strings"
 
 	"verif/third_party/xtools/go/ssa"
@@ -20,7 +21,7 @@ func init() {
 				"(N2) the query name is _<port>._<scheme>.<name> exactly under port not in {80,443}, _<scheme>.<name> exactly under scheme != https otherwise, and http is folded to https; " +
 				"(N3) alias following: the HTTPS lookup is guarded by 'name not seen' and a constant chain limit with the name recorded before the lookup (seen-set variant), an alias is followed only under Priority == 0, and an error of the HTTPS lookup is fatal only if it is not ErrNonExistentDomain; " +
 				"(N4) owner filter in the lookup: a record's data is used only under owner == want and type == asked type; want starts as the queried name and is replaced only by the target of a CNAME whose owner is the current want; " +
-				"(N5) the rcode table maps 1..5 to the documented errors and they are wrapped with %w; any other non-zero code is an error too (C16.NOFAIL); " +
+				"(N5) the rcode table maps 1..5 to the documented errors and they are wrapped with %w; any other non-zero code is an error too (C16.NOFAIL); the error also survives the cache: entries are stored only for successful lookups, or - should failures be remembered - every cache hit returns the stored error; " +
 				"(N6) every loop reachable from Resolve has a termination variant; " +
 				"(N7) service-mode records are sorted by Priority after the last append and before their targets are resolved; (N8) the A and the AAAA lookup of one stage use the same name value; (N9) the addresses of a record's target are looked up for every service-mode record that names one, under no further condition. " +
 				"Not decided: behaviour against generated zones (needs execution).",
@@ -232,6 +233,7 @@ func c14Rules(p *core.Prog, r *core.Run) {
 
 	// --- N5
 	c14Rcode(p, r, noc)
+	c14CachedErrors(p, r, one, noc)
 
 	// --- N6
 	scope := []*ssa.Function{}
@@ -583,6 +585,58 @@ func c14OwnerFilter(p *core.Prog, r *core.Run, noc *ssa.Function) {
 	r.Check("C14.N4", "lookup:want-chain", okIn && nCname == 1, p.InstrPos(wantPhi), "the followed name starts as the queried name and moves only along the in-answer CNAME chain")
 }
 
+// c14CachedErrors: the error a response code maps to must also reach the
+// caller when the answer comes from the cache. Either no entry is ever stored
+// for a failed lookup (today's code), or - if failures are remembered - no way
+// out of resolveOne serves an entry with a constant nil error.
+func c14CachedErrors(p *core.Prog, r *core.Run, one, noc *ssa.Function) {
+	exp := field(p, Ech, "cacheValue", "expiration")
+	if exp == nil {
+		r.Undecided("C14.N5", "cache:errors", p.Pos(one.Pos()), "cacheValue.expiration not found")
+		return
+	}
+	var lookup *ssa.Call
+	for _, s := range allCalls(p, []*ssa.Function{one}) {
+		if c, ok := s.Instr.(*ssa.Call); ok && s.X.Fn == noc {
+			lookup = c
+		}
+	}
+	negative := false
+	var where ssa.Instruction
+	for _, st := range fieldStores(p, p.PkgFuncs(Ech), exp) {
+		ok := false
+		for _, f := range p.Facts(st.Block()) {
+			if ex, isEx := f.L.Val.(*ssa.Extract); isEx && lookup != nil && ex.Tuple == ssa.Value(lookup) && ex.Index == 2 && f.Op == "==" && f.R.Name == "nil" {
+				ok = true
+			}
+		}
+		if !ok {
+			negative, where = true, st
+		}
+	}
+	if !negative {
+		r.Check("C14.N5", "cache:errors", true, p.Pos(one.Pos()), "cache entries are stored only under 'the lookup returned no error', so a cached answer never stands for a failed lookup")
+		return
+	}
+	bad := 0
+	for _, ret := range core.Returns(one) {
+		if !lastResultNil(ret) {
+			continue
+		}
+		if lookup != nil && (lookup.Block() == ret.Block() || lookup.Block().Dominates(ret.Block())) {
+			continue // the fresh lookup's own success
+		}
+		if len(ret.Results) > 0 {
+			if c, isC := ret.Results[0].(*ssa.Const); isC && c.IsNil() {
+				continue
+			}
+		}
+		bad++
+		r.Check("C14.N5", fmt.Sprintf("cache:errors#%d", bad), false, p.InstrPos(ret), "entries are also stored for failed lookups (%s), but this cache hit returns a nil error: the documented error of the response code is lost on every later lookup", p.InstrPos(where))
+	}
+	r.Check("C14.N5", "cache:errors", bad == 0, p.Pos(one.Pos()), "entries are stored for failed lookups; every cache hit returns the stored error (%d do not)", bad)
+}
+
 func c14Rcode(p *core.Prog, r *core.Run, noc *ssa.Function) {
 	want := map[int64]string{1: "ErrFormatError", 2: "ErrServerFailure", 3: "ErrNonExistentDomain", 4: "ErrNotImplemented", 5: "ErrQueryRefused"}
 	got := map[int64]string{}
@@ -628,9 +682,37 @@ func c14Rcode(p *core.Prog, r *core.Run, noc *ssa.Function) {
 // upgrade of http URLs depends on asking for the https records of the origin).
 func c14QueryName(p *core.Prog, r *core.Run, rs *ssa.Function, rule string) {
 	portF := func(e *core.Expr) bool { return e.Op == "field" && e.Name == "Port" && e.Args[0].Op == "new" }
-	for _, s := range callSites(p, []*ssa.Function{rs}, `fmt\.Sprintf`) {
-		format := s.X.Args[0].Name
-		fs := p.Facts(s.Block())
+	// the places that build a string: formatted, or concatenated (the outermost + only)
+	var built []ssa.Instruction
+	for _, b := range rs.Blocks {
+		for _, in := range b.Instrs {
+			switch x := in.(type) {
+			case *ssa.Call:
+				if p.X(x).Name == "fmt.Sprintf" {
+					built = append(built, x)
+				}
+			case *ssa.BinOp:
+				if x.Op != token.ADD || x.Type().String() != "string" {
+					continue
+				}
+				outer := true
+				for _, ref := range *x.Referrers() {
+					if bo, ok := ref.(*ssa.BinOp); ok && bo.Op == token.ADD {
+						outer = false
+					}
+				}
+				if outer {
+					built = append(built, x)
+				}
+			}
+		}
+	}
+	for _, in := range built {
+		parts, okParts := stringParts(p, p.X(in.(ssa.Value)))
+		if !okParts || len(parts) == 0 || !strings.HasPrefix(parts[0].Lit, "_") {
+			continue
+		}
+		fs := p.Facts(in.Block())
 		not80 := false
 		not443 := false
 		notHTTPS := false
@@ -645,19 +727,24 @@ func c14QueryName(p *core.Prog, r *core.Run, rs *ssa.Function, rule string) {
 				notHTTPS = true
 			}
 		}
-		args := variadicArgs(p, s.Instr.Common().Args[1])
-		switch format {
-		case `"_%d._%s.%s"`:
-			ok := not80 && not443 && len(args) == 3 && portF(args[0])
-			r.Check(rule, "query-name:port-form", ok, p.InstrPos(s.Instr), "_<port>._<scheme>.<name> is used exactly when the port is neither 80 nor 443, with the port first")
-		case `"_%s.%s"`:
-			// reached on the else side of the port test
-			ok := notHTTPS && len(args) == 2 && !(not80 && not443)
-			r.Check(rule, "query-name:scheme-form", ok, p.InstrPos(s.Instr), "_<scheme>.<name> is used for ports 80/443 exactly when the scheme is not https")
-		default:
-			if strings.Contains(format, "_%") {
-				r.Check(rule, "query-name:other", false, p.InstrPos(s.Instr), "unexpected query-name format %s", format)
+		shape := ""
+		for _, pt := range parts {
+			if pt.Val != nil {
+				shape += "%" + pt.Verb
+			} else {
+				shape += pt.Lit
 			}
+		}
+		switch shape {
+		case "_%d._%s.%s":
+			ok := not80 && not443 && portF(parts[1].Val)
+			r.Check(rule, "query-name:port-form", ok, p.InstrPos(in), "_<port>._<scheme>.<name> is used exactly when the port is neither 80 nor 443, with the port first")
+		case "_%s.%s":
+			// reached on the else side of the port test
+			ok := notHTTPS && !(not80 && not443)
+			r.Check(rule, "query-name:scheme-form", ok, p.InstrPos(in), "_<scheme>.<name> is used for ports 80/443 exactly when the scheme is not https")
+		default:
+			r.Check(rule, "query-name:other", false, p.InstrPos(in), "unexpected query-name format %s", shape)
 		}
 	}
 	// http folds to https: some φ input "https" is selected under ToLower(scheme) == "http"
